@@ -31,6 +31,7 @@ import (
 
 type flushCall struct {
 	gen  uint64
+	ops  []int       // op the flush callback of txn.go gives the mutation: 0 Put 1 Del 2 Insert 3 CheckNotExists
 	muts [][2]string // key, value (raw bytes as strings), in iteration order
 }
 
@@ -54,6 +55,7 @@ type harness struct {
 	pendExist *string  // an ErrKeyExist(key) failure was scripted and not yet reported: expected Value ("" = key absent)
 	plines   []string  // implementation oracle lines (P ...)
 	limit    uint64
+	opsLine  string // (key, op) list of the flush call that has just started
 	handles  []int
 }
 
@@ -113,13 +115,23 @@ func newHarness(minKeys, minSize, force uint64) *harness {
 				v = string(it.Value())
 			}
 			call.muts = append(call.muts, [2]string{string(it.Key()), v})
+			op := 0
+			if len(v) == 0 {
+				op = 1
+			}
+			if it.Flags().HasPresumeKeyNotExists() {
+				op += 2
+			}
+			call.ops = append(call.ops, op)
 		}
 		h.enter <- call
 		o := <-h.release
 		eff := o.ok && !closedAtStart
 		if eff {
-			for _, m := range call.muts {
-				h.store[m[0]] = []byte(m[1])
+			for i, m := range call.muts {
+				if call.ops[i] != 3 { // CheckNotExists writes no lock
+					h.store[m[0]] = []byte(m[1])
+				}
 			}
 		} else {
 			h.closed = true
@@ -257,6 +269,14 @@ func (h *harness) exec(f []string) string {
 			return "err:" + err.Error()
 		}
 		return "ok"
+	case "insert":
+		if err := h.p.SetWithFlags(unhex(f[1]), unhex(f[2]), kv.SetPresumeKeyNotExists); err != nil {
+			if err == tikverr.ErrCannotSetNilValue {
+				return "errnil"
+			}
+			return "err:" + err.Error()
+		}
+		return "ok"
 	case "del":
 		if err := h.p.Delete(unhex(f[1])); err != nil {
 			return "err:" + err.Error()
@@ -334,6 +354,14 @@ func (h *harness) exec(f []string) string {
 			h.inflight = true
 			h.cur = c
 			started = fmtStarted(c)
+			parts := []string{}
+			for i, m := range c.muts {
+				parts = append(parts, fmt.Sprintf("%s:%d", hex.EncodeToString([]byte(m[0])), c.ops[i]))
+			}
+			h.opsLine = "-"
+			if len(parts) > 0 {
+				h.opsLine = strings.Join(parts, ",")
+			}
 		}
 		t := "0"
 		if r.t {
@@ -348,7 +376,7 @@ func (h *harness) exec(f []string) string {
 		return "ok"
 	case "storestep":
 		i, _ := strconv.Atoi(f[1])
-		if h.inflight && i < len(h.cur.muts) {
+		if h.inflight && i < len(h.cur.muts) && h.cur.ops[i] != 3 {
 			h.early[h.cur.muts[i][0]] = []byte(h.cur.muts[i][1])
 		}
 		return "ok"
@@ -511,6 +539,10 @@ func main() {
 				tag = "X" // refused by the entry size limit: no effect, not an op of the model
 			}
 			fmt.Fprintf(out, "%s\t%s\t=>\t%s\n", tag, strings.Join(f, "\t"), r)
+			if h.opsLine != "" {
+				fmt.Fprintf(out, "OP\tflushops\t=>\t%s\n", h.opsLine)
+				h.opsLine = ""
+			}
 			for _, pl := range h.plines {
 				fmt.Fprintln(out, pl)
 			}
